@@ -24,6 +24,17 @@ class Found(Exception):
     """raised inside the Hypothesis test when the oracle reports an unknown violation"""
 
 
+class CaseTimeout(BaseException):
+    """one oracle call exceeded CASE_TIMEOUT seconds (inconclusive case, never a violation)"""
+
+
+CASE_TIMEOUT = 60
+
+
+def _on_alarm(signum, frame):
+    raise CaseTimeout()
+
+
 def canon(x):
     return json.dumps(x, sort_keys=True, default=repr, separators=(',', ':'))
 
@@ -60,6 +71,12 @@ def worker(args):
            'error': None, 'known': {}, 'nontrivial_cases': 0, 'inconclusive': False,
            'excluded_known': 0, 'widx': widx}
     try:
+        if os.environ.get('VERIF_DEBUG'):
+            import faulthandler
+            import signal
+            faulthandler.register(signal.SIGUSR1, all_threads=True)
+        import signal
+        signal.signal(signal.SIGALRM, _on_alarm)
         import hypothesis
         from hypothesis import given, settings, HealthCheck, Phase
         import hypothesis.internal.conjecture.engine as eng
@@ -73,7 +90,17 @@ def worker(args):
             if time.time() - t0 > time_cap:
                 res['inconclusive'] = True
                 return
-            r, unknown, matched = evaluate(mod, case, known)
+            signal.setitimer(signal.ITIMER_REAL, getattr(mod, 'CASE_TIMEOUT', CASE_TIMEOUT))
+            try:
+                r, unknown, matched = evaluate(mod, case, known)
+            except CaseTimeout:
+                res['labels']['cases timed out (inconclusive)'] = res['labels'].get(
+                    'cases timed out (inconclusive)', 0) + 1
+                res['inconclusive'] = True
+                save_timeout(pid, case)
+                return
+            finally:
+                signal.setitimer(signal.ITIMER_REAL, 0)
             res['evaluations'] += 1
             for k, n in (r.get('labels') or {}).items():
                 res['labels'][k] = res['labels'].get(k, 0) + n
@@ -102,6 +129,13 @@ def worker(args):
         try:
             test()
         except Found:
+            res['fail'] = {'case': jsonable(last['case']),
+                           'violations': jsonable(last['violations'])}
+        except Exception:
+            # a crash inside Hypothesis' shrinker must not hide a failure that was already found
+            if 'case' not in last:
+                raise
+            res['labels']['shrinker crashed; unshrunk failure reported'] = 1
             res['fail'] = {'case': jsonable(last['case']),
                            'violations': jsonable(last['violations'])}
         if hasattr(mod, 'extra'):
@@ -151,6 +185,16 @@ def write_evidence(pid, mod, tier, seed, merged, wall, violations, extra_cov=Non
     return path
 
 
+def save_timeout(pid, case):
+    try:
+        d = os.path.join(HERE, 'replays', 'timeouts')
+        os.makedirs(d, exist_ok=True)
+        with open(os.path.join(d, '%s-%s.json' % (pid, sha(jsonable(case)))), 'w') as f:
+            json.dump({'property': pid, 'case': jsonable(case)}, f, default=repr)
+    except Exception:
+        pass
+
+
 def save_replay(pid, tier, seed, fail):
     os.makedirs(os.path.join(HERE, 'replays'), exist_ok=True)
     h = sha(fail['case'])
@@ -178,7 +222,8 @@ def run_check(pid, tier, seed, workers, examples):
     else:
         ctx = multiprocessing.get_context('fork')
         with ctx.Pool(workers) as pool:
-            results = pool.map(worker, jobs, chunksize=1)
+            # watchdog: a worker that does not come back is a harness problem, not a verdict
+            results = pool.map_async(worker, jobs, chunksize=1).get(timeout=cap * 2 + 600)
     merged = {'evaluations': 0, 'labels': {}, 'keys': set(), 'samples': [], 'known': {},
               'nontrivial_cases': 0, 'excluded_known': 0, 'workers': workers,
               'inconclusive': False}
